@@ -10,7 +10,8 @@ EXPLANATION = ("Decides the structural premises of the reconfiguration API: R05.
                "activates the new one, pop re-activates exactly the popped value and is a no-op on an empty stack; R05.3 "
                "update_from copies every field of the specification unconditionally; R05.4 single writer of the "
                "specification lock and closed set of writers of the stack; R05.5 every reconfiguration entry reaches the store "
-               "on every non-error path. R05.2 is decided on decision rows (private accessors inlined); a pop that stores without examining whether the stack was empty is a deviation.")
+               "on every non-error path. R05.2 is decided on decision rows (private accessors inlined); a pop that stores without examining whether the stack was empty is a deviation."
+               " R05.6 (shared routing table of R13.1/R02.3): log() decides from the specification it reads at that call (level and text filter) and from no remembered state.")
 ASSUMPTIONS = ["Vec::push/pop are LIFO (std)", "filtering itself is C02's subject"]
 NOT_DECIDED = ["nothing essential of the stated property is behavioural beyond C02's matcher semantics"]
 FLOORS = {'R05.1': 2, 'R05.2': 3, 'R05.3': 1, 'R05.4': 2, 'R05.5': 5}
